@@ -258,5 +258,13 @@ pub fn run<W: Write>(opts: &Opts, out: &mut W) {
         if opts.mine(idx) {
             emit(out, &format!("webp-{name}-past"), "webp", "sync", &s, &Cfg::default(), allow, Some(n + 3), KINDS[0]);
         }
+        // every proper prefix, fault-free: a short file is a parse error, never an I/O error (truncation inside
+        // lossless image data reaches the bit reader's refill, inside a skipped chunk the seek past the end)
+        for cut in 0..s.len {
+            idx += 1;
+            if opts.mine(idx) {
+                emit(out, &format!("webp-{name}-cut{cut}"), "webp", "sync", &s.truncate(cut), &Cfg::default(), allow, None, KINDS[0]);
+            }
+        }
     }
 }
